@@ -802,6 +802,8 @@ structure PiDrv where
   method : Option Pipe.Method := none
   closed : Bool := false
   taken : Bool := false
+  /-- a second registration, for another signal, on a `dup` of the same descriptor -/
+  method2 : Option Pipe.Method := none
 
 def piStep (d : PiDrv) (line : String) : PiDrv × String :=
   match line.trimAscii.toString.splitOn " " with
@@ -830,6 +832,24 @@ def piStep (d : PiDrv) (line : String) : PiDrv × String :=
       | .id _ _ => ({ d with fd := fd', method := some m, taken := true }, "ok\n" ++ probeLine ++ flagLines)
       | .panic => ({ d with fd := Pipe.close fd', closed := true }, "panic\n" ++ probeLine ++ flagLines ++ "\n  sys close W = 0")
       | _ => ({ d with fd := Pipe.close fd', closed := true }, "err\n" ++ probeLine ++ flagLines ++ "\n  sys close W = 0")
+  | ["reg2", _, _] =>
+    -- classified again, on the shared open file description (`D` = the dup)
+    let pr := Pipe.probe d.fd
+    let (m, fd') := Pipe.classify d.fd
+    let probeLine := s!"  sys send D len=0 dontwait = {if pr == .zero then "0" else "-1"}"
+    let flagLines := if m == .write then "\n  sys fcntl D getfl = 0\n  sys fcntl D setfl nonblock=1 = 0" else ""
+    ({ d with fd := fd', method2 := some m }, "ok\n" ++ probeLine ++ flagLines)
+  | ["raise2", n] =>
+    match d.method2, n.toNat? with
+    | some m, some n =>
+      let r := Pipe.burst m d.fd n
+      let wb := (r.2.filter (· == .blocks)).length
+      ({ d with fd := r.1 }, s!"raised {n} attempts={r.2.length} wouldblock={wb} blocking_calls={wb} slow=0")
+    | _, _ => (d, "raised 0")
+  | ["unreg2"] =>
+    match d.method2 with
+    | some _ => ({ d with method2 := none }, "unregistered2=true\n  sys close D = 0")
+    | none => (d, "unregistered2=false")
   | ["raise", n] =>
     match d.method, n.toNat? with
     | some m, some n =>
